@@ -41,8 +41,9 @@ func c12Decls() []c12Decl {
 		{ID: "lit-nested", IsLit: true, Lit: "dir/o2", Rel: "dir/o2"},
 		{ID: "lit-bracket", IsLit: true, Lit: "o[1].txt", Rel: "o[1].txt"}, // a literal name with glob-like characters but no '*'
 		{ID: "lit-question", IsLit: true, Lit: "ready?.md", Rel: "ready?.md"},
-		{ID: "lit-link-into-dir", IsLit: true, Lit: "lnk", Rel: "lnk"},   // a symbolic link pointing into the output "dir"
-		{ID: "lit-link-dangling", IsLit: true, Lit: "dlnk", Rel: "dlnk"}, // a dangling symbolic link
+		{ID: "lit-link-into-dir", IsLit: true, Lit: "lnk", Rel: "lnk"},           // a symbolic link pointing into the output "dir"
+		{ID: "lit-link-dangling", IsLit: true, Lit: "dlnk", Rel: "dlnk"},         // a dangling symbolic link
+		{ID: "lit-dir-readonly-inside", IsLit: true, Lit: "rodir", Rel: "rodir"}, // holds a 0555 sub-directory with a link to a file that is no output
 		{ID: "lit-file-prefix-sibling", IsLit: true, Lit: "o1.log", Rel: "o1.log"},
 		{ID: "lit-dir-prefix-sibling", IsLit: true, Lit: "dir2.tar", Rel: "dir2.tar"},
 		{ID: "glob-top", IsLit: true, Lit: "*.gen", Glob: "*.gen"},
@@ -75,7 +76,7 @@ func c12Decls() []c12Decl {
 }
 
 // the designatable paths of the project tree (bit i of the tree mask = present)
-var c12Paths = []string{"o1", "dir/o2", "a.gen", "b.gen", "gen/x.o", "o3", "sub/o4", "sub/o5", "o1.log", "dir2.tar", ".cache/y.o", "cache/y.o", "o[1].txt", "o1.txt", "ready?.md", "readyX.md", "@lnk", "@dlnk", "out/$arch", "out/arm", "out/${arch}.o", "out/arm.o", "out/.o", "~"}
+var c12Paths = []string{"o1", "dir/o2", "a.gen", "b.gen", "gen/x.o", "o3", "sub/o4", "sub/o5", "o1.log", "dir2.tar", ".cache/y.o", "cache/y.o", "o[1].txt", "o1.txt", "ready?.md", "readyX.md", "@lnk", "@dlnk", "out/$arch", "out/arm", "out/${arch}.o", "out/arm.o", "out/.o", "~", "@rodir"}
 
 // c12Relevant: indexes into c12Paths of the paths a declaration designates or could be confused with
 func c12Relevant(id string) []int {
@@ -117,6 +118,8 @@ func c12Relevant(id string) []int {
 		return pi("out/$arch", "out/arm", "out/${arch}.o", "out/arm.o", "out/.o")
 	case "lit-tilde":
 		return pi("~")
+	case "lit-dir-readonly-inside":
+		return pi("@rodir")
 	}
 	return nil // dangerous declarations: the whole tree is at stake, the full tree is the interesting one
 }
@@ -283,12 +286,22 @@ func c12Run(root string, c c12Case) (obs []c12Obs, outcome string) {
 	t.File(projRel+"/out/keep", "keep\n")
 	t.File(projRel+"/.spok/cache.json", `{"build":""}`)
 	t.File(projRel+"/.spok/.gitignore", "*\n")
+	unremovable := false
 	for i, p := range c12Paths {
 		if c.Mask&(1<<i) != 0 {
 			switch p {
 			case "@lnk":
 				os.Symlink(filepath.Join(proj, "dir", "o2"), filepath.Join(proj, "lnk"))
 				os.Lchown(filepath.Join(proj, "lnk"), 65534, 65534)
+			case "@rodir":
+				// rodir/locked (0555) holds a file and a symbolic link to keep.txt: as nobody, removal of its
+				// entries is refused by the system; whatever spok does about that, keep.txt is not its business
+				t.File(projRel+"/rodir/locked/f.txt", "generated\n")
+				os.Symlink(filepath.Join(proj, "keep.txt"), filepath.Join(proj, "rodir/locked/lnk"))
+				os.Lchown(filepath.Join(proj, "rodir/locked/lnk"), 65534, 65534)
+				os.Chmod(filepath.Join(proj, "keep.txt"), 0o640)
+				os.Chmod(filepath.Join(proj, "rodir/locked"), 0o555)
+				unremovable = true
 			case "@dlnk":
 				os.Symlink(filepath.Join(proj, "nowhere"), filepath.Join(proj, "dlnk"))
 				os.Lchown(filepath.Join(proj, "dlnk"), 65534, 65534)
@@ -324,6 +337,12 @@ func c12Run(root string, c c12Case) (obs []c12Obs, outcome string) {
 		}
 	}
 	anyProtected := false
+	unremovableDeclared := false
+	for _, id := range c.Decls {
+		if id == "lit-dir-readonly-inside" && unremovable {
+			unremovableDeclared = true
+		}
+	}
 	if !c.CleanTask {
 		under(".spok")
 		for _, id := range c.Decls {
@@ -401,6 +420,8 @@ func c12Run(root string, c c12Case) (obs []c12Obs, outcome string) {
 		if len(left) > 0 {
 			obs = append(obs, c12Obs{"declared-output-not-removed", fmt.Sprintf("--clean exited 0 but left %v (outputs %v)", left, c.Decls)})
 		}
+	} else if unremovableDeclared {
+		// the system refused a removal: a failure is an answer (what must not happen was checked above)
 	} else if !anyProtected {
 		obs = append(obs, c12Obs{"clean-failed", fmt.Sprintf("--clean exited %d with harmless outputs %v: %s", o.Exit, c.Decls, firstLines(o.Stderr, 2))})
 	}
